@@ -313,4 +313,173 @@ theorem tokLoop_eq (d : List Nat) (fuel : Nat) (rest : List Nat) (acc : List (Li
         rw [key, List.append_assoc]
         rfl
 
+/-! ### replace -/
+
+open StVerif.Spec.Split (occurrences)
+
+/-- the specified replacement (`Spec.Split.replace`; the model has a `replace` too) -/
+abbrev specReplace := @StVerif.Spec.Split.replace
+
+theorem firstOcc_nil (cs : CaseMode) (pat : List Nat) : firstOcc cs [] pat = none := by
+  cases h : firstOcc cs [] pat with
+  | none => rfl
+  | some i =>
+    obtain ⟨h1, h2⟩ := firstOcc_bound h
+    have : ([] : List Nat).length = 0 := rfl
+    omega
+
+/-- number of cuts the specified split makes -/
+def cuts (cs : CaseMode) (pat : List Nat) (fuel max : Nat) (s : List Nat) : Nat := (splitAux cs pat fuel max s).length - 1
+
+theorem cuts_zero_of_max (cs : CaseMode) (pat : List Nat) (fuel : Nat) (s : List Nat) : cuts cs pat fuel 0 s = 0 := by
+  cases fuel <;> simp [cuts, splitAux]
+
+theorem splitAux_hit (cs : CaseMode) (pat : List Nat) (fuel max : Nat) (s : List Nat) (i : Nat) (hm : max ≠ 0)
+    (h : firstOcc cs s pat = some i) :
+    splitAux cs pat (fuel + 1) max s = s.take i :: splitAux cs pat fuel (max - 1) (s.drop (i + pat.length)) := by
+  rw [splitAux, if_neg hm, h]
+
+theorem splitAux_miss (cs : CaseMode) (pat : List Nat) (fuel max : Nat) (s : List Nat)
+    (h : max = 0 ∨ firstOcc cs s pat = none) : splitAux cs pat (fuel + 1) max s = [s] := by
+  rw [splitAux]
+  rcases h with h | h
+  · rw [if_pos h]
+  · split
+    · rfl
+    · rw [h]
+
+theorem cuts_hit (cs : CaseMode) (pat : List Nat) (fuel max : Nat) (s : List Nat) (i : Nat) (hm : max ≠ 0)
+    (h : firstOcc cs s pat = some i) :
+    cuts cs pat (fuel + 1) max s = cuts cs pat fuel (max - 1) (s.drop (i + pat.length)) + 1 := by
+  unfold cuts
+  rw [splitAux_hit cs pat fuel max s i hm h, List.length_cons]
+  have := List.length_pos_iff.2 (splitAux_ne_nil cs pat fuel (max - 1) (s.drop (i + pat.length)))
+  omega
+
+/-- the copying scan writes the specified replacement -/
+theorem copyLoop_eq (cs : CaseMode) (pat to : List Nat) (hne : pat ≠ []) (fuel max : Nat) (rest out : List Nat)
+    (hf : rest.length < fuel) (hm : rest.length ≤ max) :
+    copyLoop cs pat to fuel rest out = .ok (out ++ join to (splitAux cs pat fuel max rest)) := by
+  induction fuel generalizing max rest out with
+  | zero => omega
+  | succ fuel ih =>
+    unfold copyLoop
+    rw [findRaw_eq_firstOcc cs rest pat hne]
+    cases h : firstOcc cs rest pat with
+    | none => rw [splitAux_miss cs pat fuel max rest (Or.inr h), join_single]
+    | some i =>
+      obtain ⟨hpos, hle⟩ := firstOcc_bound h
+      have hm0 : max ≠ 0 := by omega
+      simp only []
+      rw [if_neg (by omega), if_neg (by omega), ih (max - 1) _ _ (by simp; omega) (by simp; omega),
+        splitAux_hit cs pat fuel max rest i hm0 h, join_cons_of_ne_nil _ _ _ (splitAux_ne_nil _ _ _ _ _)]
+      simp only [List.append_assoc]
+
+theorem wrap64_add_wrap64 (a b : Int) : wrap64 ((wrap64 a : Int) + b) = wrap64 (a + b) := by
+  unfold wrap64; omega
+
+/-- the counting scan adds the size difference once per specified cut (modulo 2^64) -/
+theorem countLoop_eq (cs : CaseMode) (pat : List Nat) (delta : Int) (hne : pat ≠ []) (fuel max : Nat) (rest : List Nat)
+    (outsize : Int) (hf : rest.length < fuel) (hm : rest.length ≤ max) :
+    countLoop cs pat delta fuel rest (wrap64 outsize) = .ok (wrap64 (outsize + (cuts cs pat fuel max rest : Int) * delta)) := by
+  induction fuel generalizing max rest outsize with
+  | zero => omega
+  | succ fuel ih =>
+    unfold countLoop
+    rw [findRaw_eq_firstOcc cs rest pat hne]
+    cases h : firstOcc cs rest pat with
+    | none =>
+      have : cuts cs pat (fuel + 1) max rest = 0 := by unfold cuts; rw [splitAux_miss cs pat fuel max rest (Or.inr h)]; rfl
+      rw [this]; simp
+    | some i =>
+      obtain ⟨hpos, hle⟩ := firstOcc_bound h
+      have hm0 : max ≠ 0 := by omega
+      simp only []
+      rw [if_neg (by omega), if_neg (by omega), wrap64_add_wrap64, ih (max - 1) _ _ (by simp; omega) (by simp; omega),
+        cuts_hit cs pat fuel max rest i hm0 h]
+      congr 2
+      rw [Int.natCast_add, Int.add_mul]
+      simp only [Int.natCast_one, Int.one_mul]
+      omega
+
+theorem join_length_single (to a : List Nat) : (join to [a]).length = a.length := by rw [join_single]
+
+/-- length of the replacement: one size difference per cut -/
+theorem join_splitAux_length (cs : CaseMode) (pat to : List Nat) (fuel max : Nat) (s : List Nat) :
+    ((join to (splitAux cs pat fuel max s)).length : Int) =
+      (s.length : Int) + (cuts cs pat fuel max s : Int) * ((to.length : Int) - (pat.length : Int)) := by
+  induction fuel generalizing max s with
+  | zero => simp [splitAux, cuts, join_single]
+  | succ fuel ih =>
+    by_cases hm : max = 0
+    · rw [splitAux_miss cs pat fuel max s (Or.inl hm)]
+      simp [cuts, splitAux_miss cs pat fuel max s (Or.inl hm), join_single]
+    · cases h : firstOcc cs s pat with
+      | none =>
+        rw [splitAux_miss cs pat fuel max s (Or.inr h)]
+        simp [cuts, splitAux_miss cs pat fuel max s (Or.inr h), join_single]
+      | some i =>
+        obtain ⟨hpos, hle⟩ := firstOcc_bound h
+        rw [splitAux_hit cs pat fuel max s i hm h, join_cons_of_ne_nil _ _ _ (splitAux_ne_nil _ _ _ _ _),
+          cuts_hit cs pat fuel max s i hm h]
+        simp only [List.length_append, List.length_take, Int.natCast_add]
+        rw [ih (max - 1) (s.drop (i + pat.length)), Int.add_mul]
+        simp only [List.length_drop, Int.natCast_one, Int.one_mul]
+        have : min i s.length = i := by omega
+        rw [this]
+        omega
+
+theorem spec_replace_eq (cs : CaseMode) (pat to s : List Nat) :
+    specReplace cs pat to s = join to (splitAux cs pat (s.length + 1) s.length s) := rfl
+
+theorem occurrences_eq (cs : CaseMode) (pat s : List Nat) :
+    occurrences cs pat s = cuts cs pat (s.length + 1) s.length s := rfl
+
+/-- both scans of `replace` find the same occurrences: the second stores exactly what the first
+    sized, and the text is the specified replacement -/
+theorem replaceScans_eq (cs : CaseMode) (s pat to : List Nat) (hs64 : s.length < 2^64)
+    (hfit : (specReplace cs pat to s).length < 2^64) :
+    replaceScans cs s pat to = .ok ⟨specReplace cs pat to s, (specReplace cs pat to s).length⟩ := by
+  unfold replaceScans
+  by_cases he : s.isEmpty = true ∨ pat.isEmpty = true
+  · rw [if_pos he]
+    have : specReplace cs pat to s = s := by
+      rw [spec_replace_eq]
+      rcases he with h | h
+      · have : s = [] := List.isEmpty_iff.1 h
+        subst this
+        rfl
+      · have hp : pat = [] := List.isEmpty_iff.1 h
+        subst hp
+        have : firstOcc cs s [] = none := by unfold firstOcc; rfl
+        rw [splitAux_miss cs [] s.length s.length s (Or.inr this), join_single]
+    rw [this]
+  · rw [if_neg he]
+    have hs : s ≠ [] := fun h => he (Or.inl (by rw [h]; rfl))
+    have hp : pat ≠ [] := fun h => he (Or.inr (by rw [h]; rfl))
+    have hcopy := copyLoop_eq cs pat to hp (s.length + 1) s.length s [] (by omega) (by omega)
+    rw [List.nil_append, ← spec_replace_eq] at hcopy
+    have hlen := join_splitAux_length cs pat to (s.length + 1) s.length s
+    rw [← spec_replace_eq] at hlen
+    simp only []
+    have hsize : (if pat.length ≠ to.length then
+          countLoop cs pat ((to.length : Int) - (pat.length : Int)) (s.length + 1) s s.length
+        else Outcome.ok s.length) = .ok (specReplace cs pat to s).length := by
+      by_cases hd : pat.length ≠ to.length
+      · rw [if_pos hd]
+        have hw : s.length = wrap64 (s.length : Int) := by unfold wrap64; omega
+        have hc := countLoop_eq cs pat ((to.length : Int) - (pat.length : Int)) hp (s.length + 1) s.length s (s.length : Int) (by omega) (by omega)
+        rw [← hw] at hc
+        rw [hc, ← hlen]
+        congr 1
+        unfold wrap64; omega
+      · rw [if_neg hd]
+        have : (to.length : Int) - (pat.length : Int) = 0 := by omega
+        rw [this, Int.mul_zero, Int.add_zero] at hlen
+        congr 1
+        omega
+    rw [hsize, hcopy]
+    simp only [Outcome.bind]
+    rw [if_neg (by omega), if_neg (by omega)]
+
 end StVerif.Lemmas.Split
